@@ -479,17 +479,15 @@ def _check_join(case):
         what = "stack_ds({} x {}, variant={}, align={})".format(n, w, variant, align)
     else:
         axarg = case["axis"]
-        if any("x" not in dss[0][k].dims for k in dss[0].keys()):
+        # an integer axis is a position among the DATASET's dimensions, like in every other Dataset method (take_axis, sort_axis, reductions) and in
+        # concatenate_ds's own align=True branch (earlier versions of this check counted it as ambiguous, see DESIGN section 7)
+        cdim = axarg if isinstance(axarg, str) else list(dss[0].dims)[axarg]
+        if any(cdim not in dss[0][k].dims for k in dss[0].keys()):
             call(common.da.concatenate_ds, dss, axis=axarg, align=align)
             return unspecified("concat-lacking-dim")
-        if axarg == 0 and (list(dss[0].dims)[0] != "x" or any(dss[0][k].dims[0] != "x" for k in dss[0].keys())):
-            # an integer axis is a position: in the Dataset's dims or in each variable's?  The statement does not say; only the case where both
-            # readings name 'x' is compared
-            call(common.da.concatenate_ds, dss, axis=axarg, align=align)
-            return unspecified("concat-int-axis-ambiguous")
         f = lambda: common.da.concatenate_ds(dss, axis=axarg, align=align)
         for k in dss[0].keys():
-            per[k] = call(common.da.concatenate, [d[k] for d in dss], axis="x", align=align)
+            per[k] = call(common.da.concatenate, [d[k] for d in dss], axis=cdim, align=align)
         what = "concatenate_ds({} x {}, axis={!r}, variant={}, align={})".format(n, w, axarg, variant, align)
     got = call(f)
     for d, b in zip(dss, befores):
